@@ -1347,6 +1347,10 @@ class Node:
             f"{conn.acct_application_ids}")
 
     def receive_cer(self, conn: PeerConnection, message: CapabilitiesExchangeRequest):
+        if conn.state != PEER_CONNECTED:
+            # a CER is only expected as the first message of a connection
+            self.logger.warning(f"{conn} received an unexpected CER, ignoring")
+            return
         answer: CapabilitiesExchangeAnswer = self._generate_answer(conn, message)
         answer.host_ip_address = self.ip_addresses
         answer.vendor_id = self.vendor_id
